@@ -148,6 +148,8 @@ class Ev:
             if isinstance(base, Obj):
                 if n.attr in base.__dict__:
                     return base.__dict__[n.attr]
+                if n.attr == "__class__" and base.kinds[0] in self.env:
+                    return self.env[base.kinds[0]]
                 for k in base.kinds:
                     prop = self.methods.get((k, "@" + n.attr))
                     if prop is not None:
@@ -321,7 +323,7 @@ class Ev:
                 names = [ast.unparse(e) for e in spec.elts] if isinstance(spec, ast.Tuple) else [ast.unparse(spec)]
                 if isinstance(obj, Obj):
                     return any(k in names for k in obj.kinds)
-                prim = {"str": str, "int": int, "list": list, "tuple": tuple}
+                prim = {"str": str, "int": int, "list": list, "tuple": tuple, "dict": dict, "set": set, "bool": bool, "frozenset": frozenset}
                 if all(x in prim for x in names):
                     return isinstance(obj, tuple(prim[x] for x in names))
                 return False
@@ -402,6 +404,8 @@ class Ev:
             if isinstance(recv, _Bound):
                 raise self.bad(n, "attribute of a bound method")
             if isinstance(recv, Obj):
+                if f.attr == "__class__" and recv.kinds[0] in self.env and callable(self.env[recv.kinds[0]]):
+                    return self.env[recv.kinds[0]](*args, **kwargs)
                 if f.attr in recv.__dict__ and callable(recv.__dict__[f.attr]):
                     return recv.__dict__[f.attr](*args, **kwargs)
                 for k in recv.kinds:
